@@ -287,3 +287,45 @@ Theorem c12_src_step : forall (d : @deque Z) (o : op Z),
   end.
 Proof. exact src_step. Qed.
 Print Assumptions c12_src_step.
+
+(* ---------------------------------------------------------------------------------------------
+   Histories made directly with the regenerated methods (C12/SourceHistory.v, on top of
+   c12_src_step).  [go_run] threads a deque through the translated PushBack / PushFront /
+   PopFront / PopBack / Front / Back / At / Set / Clear / Rotate / SetMinCapacity (a call that
+   panics is recovered and leaves the deque as it was).  For every history of at most 2^58 calls
+   on a deque that starts empty and well-formed with capacity and minimum <= 2^59, index
+   arguments that are Go ints, exponents <= 59 and Rotate only on an allocated buffer: the
+   translated calls do what the model does, return what the plain list returns (panic exactly
+   where the list operation is undefined) and leave the list's elements in the list's order.
+   Fuel (Clear: len+2 iterations, Rotate: |count|+1) never runs out. *)
+From FV Require Import C12.SourceHistory.
+
+Theorem c12_src_history : forall (d0 : @deque Z) (ops : list (op Z)),
+  wf d0 -> R d0 [] -> cap d0 <= 2 ^ 59 -> cfg d0 <= 2 ^ 59 ->
+  Forall arg_small ops -> rot_ok (0 <? cap d0) ops -> Z.of_nat (length ops) <= 2 ^ 58 ->
+  go_run d0 ops = run 0 d0 ops /\
+  snd (go_run d0 ops) = snd (spec_run [] ops) /\
+  contents 0 (fst (go_run d0 ops)) = fst (spec_run [] ops).
+Proof. exact src_history. Qed.
+Print Assumptions c12_src_history.
+
+(* "leaves the deque holding exactly the elements a plain list would hold" includes every
+   reallocation: growIfFull and shrinkIfExcess keep the contents and the length *)
+Theorem c12_resize_keeps_contents : forall (A : Type) (nilv : A) (d : @deque A) (l : list A),
+  wf d -> R d l ->
+  (exists d', grow_if_full nilv d = Some d' /\ wf d' /\ contents nilv d' = l /\ count d' = count d) /\
+  (exists d', shrink_if_excess nilv d = Some d' /\ wf d' /\ contents nilv d' = l /\ count d' = count d).
+Proof. exact @resize_keeps_contents. Qed.
+Print Assumptions c12_resize_keeps_contents.
+
+(* non-vacuity: a history of translated calls that allocates, fills to capacity, grows, wraps,
+   rotates, raises the minimum, reads out of range and drains meets the hypotheses and computes *)
+Example c12_example_src_history :
+  let ops := map PushBack [1;2;3;4;5;6;7;8;9;10;11;12;13;14;15;16]
+             ++ [SetMinCap 6; PushFront 17; Rotate (-3); At 17; At 0; PopFront; SetAt 1 7; Back; Clear; PopBack] in
+  Forall arg_small ops /\ rot_ok false ops /\
+  snd (go_run zero_deque ops) = snd (spec_run [] ops) /\
+  cap (fst (go_run zero_deque ops)) = 32 /\ nth 19 (snd (go_run zero_deque ops)) ONone = OPanic.
+Proof.
+  split; [repeat (apply Forall_cons; [simpl; try exact I; repeat split; easy|]); apply Forall_nil|]. split; [simpl; tauto|]. vm_compute. repeat split; reflexivity.
+Qed.
